@@ -65,6 +65,8 @@ def case_strategy(draw):
             continue
         if action == "pass" and is_used and c["kind"] not in ("float",):
             continue
+        if c["kind"] == "bool":
+            continue  # a boolean column cannot hold a missing value
         if draw(st.integers(0, 2)) == 0:
             continue
         k = draw(st.integers(1, max(1, n // 4)))
